@@ -88,36 +88,86 @@ def payload_events(prog, fn, sname, tag, payload):
     return ev
 
 
+def _takes_object(fn_or_call_ops, sname):
+    for a in fn_or_call_ops:
+        ty = getattr(a, "ty", "") or ""
+        b = strip_casts(a) if hasattr(a, "is_inst") else a
+        for t in (ty, getattr(b, "ty", "") or ""):
+            if t.endswith("*") and not t.endswith("**") and (t[1:-1] == sname or t[1:-1].startswith(sname + ".")):
+                return True
+    return False
+
+
 def run_array_cache(chk, prog, sname, tag, payload):
+    """typestate of one array cache over every function that touches it.  Static helpers are part of their callers: a
+    call of a helper that is handed the cache object applies the helper's summary (state at entry -> states at its
+    returns), and the helper's own obligation is judged for the states its call sites can be in, not for 'valid'."""
     n = 0
+    evs, skip = {}, set()
     for fn in prog.functions():
         ev = payload_events(prog, fn, sname, tag, payload)
         if not ev:
             continue
-        # skip writes into freshly allocated objects (constructor, copy hook)
         if all(base_is_fresh(prog, (i.ops[1] if i.op == "store" else i.ops[0]), fn) for i in ev):
             chk.ok("K9-array", "%s:%s" % (fn.name, tag), fn, "writes only a freshly allocated reader", nontrivial=False)
+            skip.add(fn)
             continue
-        chk.analysed(fn)
-        n += 1
         # do_block(cmp, in, insize, out, outsize): the first pointer argument is the input
         for i, e in list(ev.items()):
             if i.op == "call" and i.callee is None and e[0] == "payload":
                 ptr_args = [a for a in i.ops if not a.is_const and a.ty.endswith("*")]
-                fields = [field_of_ptr(a, sname) for a in ptr_args]
                 # payload passed only as the *input* of a transformation whose output is elsewhere
                 tg = prog.call_targets(i)[0]
                 names = {getattr(t, "name", "") for t in tg}
                 if any("do_block" in x or x.endswith("_block") for x in names) and len(ptr_args) >= 3:
                     if field_of_ptr(ptr_args[1], sname) in payload and field_of_ptr(ptr_args[2], sname) not in payload:
                         del ev[i]
-        states = {fn.blocks[0]: frozenset([OLD])}
+        evs[fn] = ev
+    # helpers: static functions with events, every caller of which is known, that are handed the object
+    helpers = set()
+    for fn in evs:
+        if fn.internal and prog.callers_of(fn) and _takes_object(fn.params, sname):
+            helpers.add(fn)
+    # call events: a call of a function with events (a helper, or anything else that writes the cache) on this object
+    callev = {}
+    changed = True
+    touching = set(evs)
+    while changed:
+        changed = False
+        for fn in prog.functions():
+            if fn.decl or fn in skip:
+                continue
+            for c in fn.build().calls():
+                if not c.callee:
+                    continue
+                g = prog.fn(c.callee, fn.unit)
+                if g is None or g.decl or g is fn or g not in touching or not _takes_object(c.ops, sname):
+                    continue
+                if (fn, c) not in callev:
+                    callev[(fn, c)] = g
+                    if fn not in touching:
+                        touching.add(fn)
+                        evs.setdefault(fn, {})
+                    changed = True
+    summ_cache = {}
+
+    def flow(fn, entry, record=None, depth=0):
+        """-> {block: out state}; entry: frozenset of states"""
+        ev = evs.get(fn, {})
+        calls = {c: g for (f_, c), g in callev.items() if f_ is fn}
+        states = {fn.blocks[0]: entry}
         work = [fn.blocks[0]]
         out_state = {}
 
         def transfer(b, st):
             commit = any(ev.get(i, ("", 0))[0] == "tag" and not ev[i][1] for i in b.insts)
             for i in b.insts:
+                if i in calls and depth < 4:
+                    if record is not None:
+                        record.setdefault(calls[i], set()).update(st)
+                    # a callee that leaves the cache dirty is reported where it does so, not again in every caller
+                    st = frozenset((INV if (o == DIRTY and s_ != DIRTY) else o) for s_ in st for o in summary(calls[i], s_, depth + 1))
+                    continue
                 e = ev.get(i)
                 if e is None:
                     continue
@@ -126,24 +176,68 @@ def run_array_cache(chk, prog, sname, tag, payload):
                 else:
                     if commit and not e[1]:
                         continue     # plain stores in the block that commits the new tag
-                    st = frozenset(INV if s == INV else DIRTY for s in st)
+                    st = frozenset(INV if s_ == INV else DIRTY for s_ in st)
             return st
         while work:
             b = work.pop(0)
             o = transfer(b, states[b])
             out_state[b] = o
-            for s in b.succs:
-                cur = states.get(s)
+            for s_ in b.succs:
+                cur = states.get(s_)
                 nv = o if cur is None else (cur | o)
                 if nv != cur:
-                    states[s] = nv
-                    if s not in work:
-                        work.append(s)
+                    states[s_] = nv
+                    if s_ not in work:
+                        work.append(s_)
+        return out_state
+
+    def summary(g, s_in, depth):
+        key = (g, s_in)
+        if key in summ_cache:
+            return summ_cache[key]
+        summ_cache[key] = frozenset([s_in])      # recursion: identity
+        g.build()
+        out = flow(g, frozenset([s_in]), None, depth)
+        res = set()
+        for r in g.rets():
+            if r.bb in out:
+                res |= set(out[r.bb])
+        summ_cache[key] = frozenset(res) if res else frozenset([s_in])
+        return summ_cache[key]
+
+    # entry states of helpers: what their call sites can be in (fix-point from the non-helpers)
+    entry = {fn: frozenset([OLD]) for fn in evs if fn not in helpers}
+    seen_states = {}
+    for _round in range(4):
+        rec = {}
+        for fn in list(evs):
+            if fn in helpers and fn not in entry:
+                continue
+            flow(fn.build(), entry[fn], rec)
+        new = False
+        for g, sts in rec.items():
+            if g in helpers:
+                cur = entry.get(g, frozenset())
+                nv = cur | frozenset(sts)
+                if nv != cur:
+                    entry[g] = nv
+                    new = True
+        if not new:
+            break
+    for fn in sorted(evs, key=lambda x: x.qname):
+        if fn not in entry:
+            # a helper nobody calls with the object in a known state: judged on its own
+            entry[fn] = frozenset([OLD])
+        ev = evs[fn]
+        if not ev and not any(f_ is fn for (f_, _c) in callev):
+            continue
+        chk.analysed(fn)
+        n += 1
+        out_state = flow(fn, entry[fn])
         for r in fn.rets():
             if r.bb not in out_state:
                 continue
             st = out_state[r.bb]
-            inst = "%s:%s:ret@%d" % (fn.name, tag, r.line)
             if DIRTY in st:
                 # witness: which return value / which path
                 chk.violation("K9-array", "%s:%s" % (fn.name, tag), r,
@@ -152,10 +246,12 @@ def run_array_cache(chk, prog, sname, tag, payload):
                               "bytes" % ("/".join(payload), tag), path=_witness(fn, ev, r))
                 break
         else:
+            how = "" if fn not in helpers else " (static helper: entered with the cache %s)" % "/".join(sorted(entry[fn]))
             chk.ok("K9-array", "%s:%s" % (fn.name, tag), fn,
-                   "on every path the tag is invalidated before, or set after, the payload writes (%d events)" % len(ev))
+                   "on every path the tag is invalidated before, or set after, the payload writes (%d events)%s" % (len(ev), how))
         # C10-b: hit path
-        hit_test(chk, prog, fn, sname, tag, None, ev)
+        if ev:
+            hit_test(chk, prog, fn, sname, tag, None, ev)
     return n
 
 
@@ -205,6 +301,12 @@ def hit_test(chk, prog, fn, sname, tag, ptr_field, ev):
                 if ptr_field and ptr_field in fields and cond.pred in ("eq", "ne") and \
                         any(o.is_const and o.is_null for o in cond.ops) and outcome == (cond.pred == "ne"):
                     has_ptr = True
+            # the same by paths (hit and miss may share the final `return 0`): among the ways to b that write nothing,
+            # none avoids the 'tag == key' edge (resp. the 'pointer != NULL' edge)
+            if not has_tag:
+                has_tag = not _reach_clean_avoiding(fn, b, clean, sname, tag, False)
+            if ptr_field and not has_ptr:
+                has_ptr = not _reach_clean_avoiding(fn, b, clean, sname, ptr_field, True)
             found = True
             inst = "%s:%s:hit" % (fn.name, tag)
             if has_tag and (has_ptr or not ptr_field):
@@ -219,6 +321,45 @@ def hit_test(chk, prog, fn, sname, tag, ptr_field, ev):
                                   "success return without reloading the payload is not guarded by the tag%s" % (
                                       "/pointer" if ptr_field else ""))
     return found
+
+
+def _reach_clean_avoiding(fn, target, clean, sname, field, nonnull):
+    """is `target` reachable from the entry through blocks that write no payload, without taking an edge on which
+    `field` was found equal to something (nonnull: found different from NULL)?"""
+    banned = set()
+    n_edges = 0
+    for b in clean:
+        t = b.term
+        if not (t.op == "br" and len(t.x["succ"]) == 2):
+            continue
+        cond = t.ops[0]
+        if not (cond.is_inst and cond.op == "icmp" and cond.pred in ("eq", "ne")):
+            continue
+        loads = [x for o in cond.ops for x in backward_slice(o) if x.is_inst and x.op == "load"]
+        if field not in {field_of_ptr(x.ops[0], sname) for x in loads}:
+            continue
+        if nonnull:
+            if not any(o.is_const and o.is_null for o in cond.ops):
+                continue
+            good = t.x["succ"][0 if cond.pred == "ne" else 1]
+        else:
+            good = t.x["succ"][0 if cond.pred == "eq" else 1]
+        banned.add((b, good))
+        n_edges += 1
+    if not n_edges:
+        return True
+    seen, stack = set(), [fn.blocks[0]]
+    while stack:
+        b = stack.pop()
+        if b in seen or b not in clean:
+            continue
+        seen.add(b)
+        if b is target:
+            return True
+        for s_ in b.succs:
+            if (b, s_) not in banned:
+                stack.append(s_)
+    return False
 
 
 def run_pointer_cache(chk, prog, sname, tag, ptr):
